@@ -467,6 +467,20 @@ func c12Run(c core.Case, env *core.Env) core.Result {
 		reject("session: empty", in.comps, []byte{}, in.stmt)
 		reject("session: leading zero added", in.comps, append([]byte{0}, s...), in.stmt)
 		reject("session: other ssid same index", in.comps, append(randBytes(rg, len(s)-1), s[len(s)-1]), in.stmt)
+		// a verifier loop that keeps one context buffer and rewrites it in place per participant
+		buf := append([]byte{}, s...)
+		if ok, _ := in.safeVerify(in.comps, buf, in.stmt); !ok {
+			r.Fail("rejected:"+in.sys+":same session in another buffer", "the proof is rejected under a copy of its own session string")
+		}
+		buf[len(buf)-1] ^= 0x02
+		reject("session: index suffix rewritten in place in the buffer used for the previous call", in.comps, buf, in.stmt)
+		buf[len(buf)-1] ^= 0x02
+		buf[0] ^= 0x80
+		reject("session: first byte rewritten in place in the buffer used for the previous call", in.comps, buf, in.stmt)
+		buf[0] ^= 0x80
+		if ok, _ := in.safeVerify(in.comps, buf, in.stmt); !ok {
+			r.Fail("rejected:"+in.sys+":session restored in place", "the proof is rejected after the caller's session buffer was changed and changed back")
+		}
 	case "statement":
 		for i := range in.stmt {
 			st := cloneInts(in.stmt)
